@@ -314,10 +314,29 @@ def ranking_views_agree(self):
 
 
 def dataset_views_agree(self):
+    """light version evaluated by icontract after every public method (the full dataset_problems() is
+    applied explicitly at the quiescent points of the histories): maps, universe and counts"""
     INV_SEEN["dataset"] += 1
-    for p in dataset_problems(self):
-        if len(INV_PROBLEMS) < 50:
-            INV_PROBLEMS.append(p)
+    uni = set()
+    for r in self.rankings:
+        for b in r.buckets:
+            for e in b:
+                uni.add((type(e.value), e.value))
+    n = len(uni)
+    e2i = self.mapping_elem_id
+    i2e = self.mapping_id_elem
+    bad = None
+    if {(type(e.value), e.value) for e in e2i} != uni:
+        bad = ("C16/elem-id-map-keys-differ-from-universe", f"keys={sorted(map(repr, e2i))[:8]}")
+    elif sorted(e2i.values()) != list(range(n)):
+        bad = ("C16/elem-ids-not-0..n-1", f"ids={sorted(e2i.values())[:12]}")
+    elif set(i2e) != set(range(n)):
+        bad = ("C16/stale-id-in-id-elem-map" if any(i >= n for i in i2e) else "C16/id-elem-map-keys-not-0..n-1",
+               f"mapping_id_elem has keys {sorted(i2e)[:12]} but n={n}")
+    elif self.nb_elements != n:
+        bad = ("C16/nb-elements-differs", f"nb_elements={self.nb_elements} union has {n}")
+    if bad and len(INV_PROBLEMS) < 50:
+        INV_PROBLEMS.append(bad)
     return True
 
 
